@@ -520,9 +520,9 @@ func readXmlRoute(data []byte, withOption bool) (out string) {
 	var c xsel.Cursor
 	var err error
 	if withOption {
-		c, err = xsel.ReadXml(bytes.NewReader(data), func(d *xml.Decoder) { d.Strict = true })
+		c, err = xsel.ReadXml(readerFor(data, xmlReads), func(d *xml.Decoder) { d.Strict = true })
 	} else {
-		c, err = xsel.ReadXml(bytes.NewReader(data))
+		c, err = xsel.ReadXml(readerFor(data, xmlReads+1))
 	}
 	if err != nil {
 		return "E"
